@@ -1,5 +1,5 @@
 From Coq Require Import ZArith NArith List Bool.
-From GoCoap Require Import Base.Cases Pool.Model Pool.Spec Pool.Bounded.
+From GoCoap Require Import Base.Cases Pool.Model Pool.Spec Pool.Bounded Pool.HandOverModel.
 Import ListNotations.
 Open Scope Z_scope.
 
@@ -13,13 +13,18 @@ Inductive case :=
 | Exchange (steps : list bw_step)    (* family E: the datagrams of one scripted block-wise exchange, one window each *)
 | PingX (maxrt : Z) (obs : list ping_obs)   (* family K: the life of one AsyncPing, one window per finisher *)
 | GiveUp (gate : Z) (reached returned : bool) (t : list lc)
-| Sweep (gate : Z) (reached : bool) (entries_swept entries_end : Z) (window t : list lc).
+| Sweep (gate : Z) (reached : bool) (entries_swept entries_end : Z) (window t : list lc)
+| HandOver (k : ho_kind) (late : Z) (t : list lc).
    (* family G: a block-wise call given up while a receive path is at its gate-th access to the caller's request;
       reached = the receive path got that far; returned = Do returned while the receive path was held there *)
    (* family X: the expiry sweep of net/blockwise run while the receive path of a block is held at its gate-th access to
       the partially received message of its transfer (reached = it got that far; otherwise the sweep ran after the
       receive path had returned); entries_swept / entries_end = size of receivingMessagesCache after the sweep / at the
       end; window = the lifecycle events of the goroutine that ran the sweep, during the sweep *)
+
+   (* family H: a response handed to the caller waiting in Do (k: the received message itself / the message reassembled
+      from blocks), the application using and releasing it the moment Do returns; late = the number of accesses the
+      library made to the handed-over message after the hand-over (each held until the application had released it) *)
 
 (* ---- comparison of an observed window with the model's path, up to the names of the objects ----
    canon renames the objects in the order of their first occurrence; the hand-out of a recycled object
@@ -112,11 +117,14 @@ Definition agrees (c : case) : bool :=
       (* Pool/Model.v step_s SwKeep: the sweep removes the expired entry and gives nothing back to the pool; the handler
          that goes on working on the message does not put the entry back *)
       lcs_eqb (canon win) (canon (sweep_window SwKeep 0)) && (swept =? 0) && (fin =? 0) && negb (N.eqb (check t) 6)
+  | HandOver k late t =>
+      (* Pool/HandOverModel.v handover_code: the receive path makes no access to the message after the channel send *)
+      (late =? Z.of_nat (snd (handover_code k))) && negb (N.eqb (check t) 6)
   end.
 
 Definition pclass (c : case) : N :=
   match c with
-  | Trace _ t | Hung t | GiveUp _ _ _ t | Sweep _ _ _ _ _ t => c12_class t
+  | Trace _ t | Hung t | GiveUp _ _ _ t | Sweep _ _ _ _ _ t | HandOver _ _ t => c12_class t
   | PoolSeq _ _ => 0%N
   | Exchange steps => bw_class steps
   | PingX _ obs => ping_class obs
